@@ -30,5 +30,7 @@ UpdAllowed(ev) ==
     THEN /\ Eq(ev.after, ev.plain_after)
          /\ Eq(ev.ret, ev.plain_ret)
          /\ ("same_type" \in DOMAIN ev => ev.same_type)
-    ELSE ev.out = "abort" /\ ev.volatile_target /\ ~ev.fits
+    ELSE /\ ev.out = "abort" /\ ev.volatile_target /\ ~ev.fits
+         \* ... INSTEAD of updating: the operand of a refused (single) update still holds its value
+         /\ ("left" \in DOMAIN ev => ev.left_ok /\ Eq(ev.left, ev.left_want))
 =============================================================================
